@@ -296,3 +296,154 @@ func vh_C04_readat_in_flight() {
 	vAssert(c.Wait() != nil, "Wait returns the cause")
 	c.Close()
 }
+
+// ---- multi-chunk transfers in flight when the connection is lost, without
+// the transport threads: the peer's Write plays the receive loop inline (real
+// getChannel + delivery for the replies that still arrive, real broadcastErr
+// for the loss), so the schedule space is that of the transfer's own workers.
+// After `cutAfter` requests have gone out, any subset of them is answered in
+// any order, then the connection is lost; later writes fail or vanish.
+
+type vInlinePeer struct {
+	c        *Client
+	buf      []byte
+	held     [][]byte // request frames not yet answered
+	seen     int
+	cutAfter int
+	cut      bool
+	content  []byte
+	written  []byte
+	answered int
+	failLate bool
+}
+
+func (p *vInlinePeer) answer(frame []byte) {
+	typ := frame[0]
+	id := frame[1:5]
+	sid := vBE32(id)
+	_, rest := vBodyStr(frame[5:])
+	off := int(vBE64(rest))
+	var r result
+	switch typ {
+	case sshFxpRead:
+		if off < len(p.content) {
+			r = result{typ: sshFxpData, data: append(append([]byte{}, id...), 0, 0, 0, 1, p.content[off])}
+		} else {
+			r = result{typ: sshFxpStatus, data: append(append([]byte{}, id...), 0, 0, 0, 1, 0, 0, 0, 0, 0, 0, 0, 0)}
+		}
+	case sshFxpWrite:
+		n := int(vBE32(rest[8:]))
+		for len(p.written) < off+n {
+			p.written = append(p.written, 0xee)
+		}
+		copy(p.written[off:], rest[12:12+n])
+		r = result{typ: sshFxpStatus, data: append(append([]byte{}, id...), 0, 0, 0, 0, 0, 0, 0, 0, 0, 0, 0, 0)}
+	default:
+		r = result{typ: sshFxpStatus, data: append(append([]byte{}, id...), 0, 0, 0, 0, 0, 0, 0, 0, 0, 0, 0, 0)}
+	}
+	ch, ok := p.c.clientConn.getChannel(sid)
+	vAssert(ok, "the request is registered when its reply arrives")
+	if ok {
+		ch <- r
+		p.answered++
+	}
+}
+
+func (p *vInlinePeer) lose() {
+	p.cut = true
+	// any subset of the outstanding requests is still answered, in any order
+	for len(p.held) > 0 && vNondetBool() {
+		k := vChoice(len(p.held))
+		f := p.held[k]
+		p.held = append(p.held[:k], p.held[k+1:]...)
+		p.answer(f)
+	}
+	p.c.clientConn.broadcastErr(io.ErrUnexpectedEOF)
+}
+
+func (p *vInlinePeer) Write(b []byte) (int, error) {
+	if p.cut {
+		if p.failLate {
+			return 0, io.ErrClosedPipe
+		}
+		return len(b), nil
+	}
+	p.buf = append(p.buf, b...)
+	for len(p.buf) >= 4 {
+		l := int(vBE32(p.buf))
+		if len(p.buf) < 4+l {
+			break
+		}
+		p.held = append(p.held, append([]byte{}, p.buf[4:4+l]...))
+		p.buf = p.buf[4+l:]
+		p.seen++
+	}
+	if p.seen >= p.cutAfter {
+		p.lose()
+	}
+	return len(b), nil
+}
+
+func (p *vInlinePeer) Close() error { return nil }
+
+func vTransferCut(op int) {
+	const nc = 2 // chunks
+	content := vNondetArray(nc)
+	peer := &vInlinePeer{content: content, cutAfter: 1 + vChoice(nc), failLate: vNondetBool()}
+	c := &Client{clientConn: clientConn{conn: conn{Reader: &vReader{}, WriteCloser: peer},
+		inflight: make(map[uint32]chan<- result), closed: make(chan struct{})}, ext: map[string]string{}, maxPacket: 1, maxConcurrentRequests: 2}
+	c.useConcurrentWrites = true
+	peer.c = c
+	f := &File{c: c, path: "/f", handle: "h"}
+	b := make([]byte, nc)
+	var n int
+	var err error
+	switch op {
+	case 0:
+		n, err = f.ReadAt(b, 0)
+	case 1:
+		copy(b, content)
+		n, err = f.WriteAt(b, 0)
+	case 2:
+		copy(b, content)
+		var n64 int64
+		n64, err = f.ReadFromWithConcurrency(&vReader{data: b}, 2)
+		n = int(n64)
+	}
+	// the call returned (a hang is a deadlock in the engine; leftover goroutines are a leak)
+	vAssert(n >= 0 && n <= nc, "count within the buffer")
+	vAssert(peer.cut, "the connection was lost during the transfer")
+	if err == nil {
+		vAssert(n == nc && peer.answered >= nc, "success only if every chunk's reply had arrived")
+	}
+	if peer.answered < nc {
+		vAssert(err != nil, "a chunk whose reply was lost makes the transfer fail")
+	}
+	if op == 0 {
+		for i := 0; i < n; i++ {
+			vAssert(b[i] == content[i], "ReadAt: the first n bytes are the file's")
+		}
+	}
+	if op == 1 && err != nil {
+		for i := 0; i < n && i < len(peer.written); i++ {
+			vAssert(peer.written[i] == content[i], "WriteAt: the first n bytes were written intact")
+		}
+		vAssert(n <= len(peer.written), "WriteAt: the count does not exceed what was acknowledged contiguously")
+	}
+	// an operation started afterwards fails at once
+	_, err2 := c.Stat("/x")
+	vAssert(err2 != nil, "an operation started after the loss returns an error")
+	vEmit("op", op)
+	vEmit("n", n)
+}
+
+//verif:atomic-invisible
+func vh_C04_readat_cut() { vTransferCut(0) }
+
+//verif:atomic-invisible
+//verif:tier thorough
+func vh_C04_writeat_cut() { vTransferCut(1) }
+
+//verif:atomic-invisible
+//verif:tier thorough
+func vh_C04_readfrom_cut() { vTransferCut(2) }
